@@ -166,6 +166,41 @@ def main():
     run_wait("Seconds", 5, 1, crash=True)
     run_wait("Timestamp", 5, 1, crash=True)
     run_wait("Seconds", 2, 0, crash=True)
+    def run_map_wait(v, delay, mc, n=3):
+        """Pass -> Map(MaxConcurrency mc) over n items, each iteration one Wait of v seconds; the Map event is delivered `delay` seconds late.
+        The Wait of an iteration is entered when the iteration is launched: it ends v seconds after that, not v seconds after the Map state was entered."""
+        it = {"StartAt": "W", "States": {"W": {"Type": "Wait", "Seconds": v, "End": True}}}
+        m = {"Type": "Map", "ItemsPath": "$.items", "Iterator": it, "Next": "N"}
+        if mc is not None:
+            m["MaxConcurrency"] = mc
+        defn = {"StartAt": "P", "States": {"P": {"Type": "Pass", "Next": "M"}, "M": m, "N": {"Type": "Succeed"}}}
+        w.register(ARN, defn)
+        n0 = len(w.trace)
+        started = w.clock.t
+        w.start_execution(ARN, {"items": list(range(n))})
+        w.step(*w.enabled()[0][1:])                       # start event: Pass runs, publishes M
+        w.advance_to(w.clock.t + delay)
+        r = w.run(max_steps=400)
+        tr = list(zip(w.trace[n0:], w.trace.times[n0:]))
+        launched = [tm for t, tm in tr if t[0] == "hist" and t[3] == "MapIterationStarted"]
+        entered = [tm for t, tm in tr if t[0] == "hist" and t[3] == "WaitStateEntered"]
+        exited = [tm for t, tm in tr if t[0] == "hist" and t[3] == "WaitStateExited"]
+        term = [t for t, tm in tr if t[0] == "broadcast" and t[3]["detail"]["status"] in ("SUCCEEDED", "FAILED")]
+        d = {"form": "Seconds inside a Map iteration", "value": v, "delivery_delay": delay, "MaxConcurrency": mc, "items": n, "exec_timeout": None, "crash": False,
+             "launched": [x - sim.EPOCH0 for x in launched], "wait_entered": [x - sim.EPOCH0 for x in entered], "wait_exited": [x - sim.EPOCH0 for x in exited]}
+        clean()
+        if r != "quiescent" or len(term) != 1 or term[0][3]["detail"]["status"] != "SUCCEEDED" or not (len(launched) == len(entered) == len(exited) == n):
+            ck.violation("a Map of Wait states did not run each of its iterations once and succeed: %s %r" % (r, d), {"group": "wait", "case": d})
+            return
+        for i in range(n):
+            # the i-th launched iteration is the i-th to enter and (equal durations) the i-th to leave its Wait
+            wait_cases.append("(%s, %s, %s, %s, false)" % (z(us(entered[i])), z(us(started + 86400)), z(us(launched[i] + v)), z(us(exited[i]))))
+            wdesc.append(dict(d, iteration=i, now=entered[i] - sim.EPOCH0, target=launched[i] + v - sim.EPOCH0, fired=exited[i] - sim.EPOCH0))
+
+    for v in ((2, 10) if not thorough else (1, 2, 10, 64)):
+        for dl in ((0, 3) if not thorough else (0, 0.5, 3, 20)):
+            for mc in (None, 1, 2):
+                run_map_wait(v, dl, mc)
     r = ck.eval_cases("wait", imp, "Z * Z * Z * Z * bool", wait_cases, ["c08_fire_oracle"], per_file=1000)
     if r is not None:
         for i in r["c08_fire_oracle"][:5]:
